@@ -531,6 +531,10 @@ func (e *Enc) backEdges(b *ssa.BasicBlock, st *State) {
 			}
 			e.obligeG(g, "iteration", fmt.Sprintf("loop%d#%d %s", li.ord, k+1, it.Text), it.Tags, cond, token.NoPos)
 		}
+		if li.unknown && hasTag(e.panicTags, "C05") {
+			// termination is claimed for this function (C05) and this loop has no measure
+			e.obligeG(g, "variant", fmt.Sprintf("loop%d has no decreases clause", li.ord), []string{"C05"}, tFalse, token.NoPos)
+		}
 		for k, d := range li.lc.Dec {
 			v1 := c.evalInt(d.E)
 			v0 := li.varSnap[k]
